@@ -50,11 +50,19 @@ Proof.
   apply IH. exact Hds.
 Qed.
 
+Lemma count_digits_chars ds : count_digits (map digit_char ds) = length ds.
+Proof.
+  unfold count_digits. induction ds as [|d ds IH]; cbn [map filter]; [reflexivity|].
+  assert (E : is_digit (digit_char d) = true) by (pattern (digit_char d); apply digit_char_prop; reflexivity).
+  rewrite E. cbn [length]. f_equal. exact IH.
+Qed.
+
 Lemma py_int_digits ds :
-  ds <> [] -> forallb digit_ok ds = true ->
+  ds <> [] -> forallb digit_ok ds = true -> length ds <= max_str_digits ->
   py_int (map digit_char ds) = Some (Z.of_nat (digits_value ds)).
 Proof.
-  intros Hne H. unfold py_int. rewrite strip_by_nospace.
+  intros Hne H Hlen. unfold py_int. rewrite count_digits_chars.
+  apply Nat.ltb_ge in Hlen. rewrite Hlen. rewrite strip_by_nospace.
   2:{ rewrite forallb_forall. intros x Hx. apply in_map_iff in Hx. destruct Hx as [d [<- _]].
       apply (digit_char_prop (fun c => negb (is_space_c c) = true)); reflexivity. }
   destruct ds as [|d ds]; [congruence|]. cbn [map].
